@@ -90,6 +90,13 @@ var opTmpls = map[string]opTmpl{
 	"dictNestedAppend": {"%s[\"a\"]!.append(9)", false, "", ""},
 	"dictKeys":         {"%s.keys", true, "", ""},
 	"forEachKeyImpure": {"%s.forEachKey(fun (k: String): Bool { P.gI = 9; return true })", false, "", ""},
+	"swapOwnField":     {"var t = 9\nself.hn <-> t", false, "", ""},
+	"refFieldAssign":   {"%s.x = 1", false, "", ""},
+	"refFieldSwap":     {"var t = 9\n%s.x <-> t", false, "", ""},
+	"swapGlobal":       {"var t = 9\nP.gI <-> t", false, "", ""},
+	"swapLocal":        {"var a1 = 1\nvar t = 9\na1 <-> t", false, "", ""},
+	"assignCaptured":   {"var cv = 1\nlet gq = view fun () {\n  cv = 2\n}\ngq()", false, "", ""},
+	"swapCaptured":     {"var cv = 1\nlet gq = view fun () {\n  var t = 9\n  cv <-> t\n}\ngq()", false, "", ""},
 	"assignGlobal":     {"P.gI = 5", false, "", ""},
 	"callImpureFree":   {"P.bump()", true, "", ""},
 	"emitStatement":    {"emit Ev()", false, "", ""},
@@ -134,7 +141,7 @@ func purBody(c *PCase) (body string, cond string, err string) {
 	isRef := false
 	switch c.Root {
 	case "refparam":
-		root = map[string]string{"S": "s", "A": "a", "D": "d"}[c.TT]
+		root = map[string]string{"S": "s", "A": "a", "D": "d", "SS": "other"}[c.TT]
 		isRef = true
 	case "global":
 		root = map[string]string{"S": "P.gS", "A": "P.gA", "D": "P.gD"}[c.TT]
@@ -250,6 +257,9 @@ func purFunction(name string, body, cond, site string, ind string) string {
 }
 
 func purContract(c *PCase) (string, string, string) {
+	if c.TT == "RX" {
+		return purResContract(c)
+	}
 	body, cond, err := purBody(c)
 	if err != "" {
 		return "", "", err
@@ -262,6 +272,12 @@ func purContract(c *PCase) (string, string, string) {
 		mBody, mCond, mSite = body, cond, c.Site
 		call = "let res = h.vm(" + purArgs + ")"
 	}
+	sBody := ""
+	if c.TT == "SS" { // a view method of S itself: only there a field of S is assignable through a reference
+		fBody, fCond, fSite = "", "", "body"
+		sBody = body
+		call = "let res = sv0.vs(other: &sv0 as auth(Mutate) &S)"
+	}
 	var sb strings.Builder
 	sb.WriteString(`access(all) contract P {
   access(all) event Ev()
@@ -273,6 +289,11 @@ func purContract(c *PCase) (string, string, string) {
     access(all) fun setX(_ v: Int): Int { self.x = v; return v }
     access(Mutate) fun mset(_ v: Int): Int { self.x = v; return v }
     access(all) view fun getX(): Int { return self.x }
+    access(all) view fun vs(other: auth(Mutate) &S): Int {
+`)
+	sb.WriteString(indent(sBody, "      "))
+	sb.WriteString(`      return 0
+    }
   }
   access(all) struct W {
     access(all) let r: auth(Mutate) &S
@@ -338,6 +359,101 @@ func purContract(c *PCase) (string, string, string) {
 		}
 	}
 	return sb.String(), shown, ""
+}
+
+
+// ---- resource transfers: second value transfer and swap on resource-typed targets (tt = RX)
+
+func purResContract(c *PCase) (string, string, string) {
+	idx := c.Root == "selfIndex" // element type @Coin (not optional): the value comes from parameter w
+	target := map[string]string{
+		"selfField": "self.coin", "selfIndex": "self.coins[0]", "selfDict": "self.bag[\"a\"]",
+		"ownedField": "owned.coin", "localVar": "lc", "contractField": "P.gCoin", "contractHoldField": "P.gHold.coin",
+	}[c.Root]
+	if target == "" {
+		return "", "", "unknown target " + c.Root
+	}
+	var body string
+	initBody := "self.spare <- v\nself.spare2 <- w"
+	methodBody := "return <- [<- owned, <- v, <- w]"
+	switch {
+	case c.Site == "init" && c.Op == "secondTransfer" && idx:
+		body = fmt.Sprintf("let old <- %s <- w\nself.spare2 <- old\nself.spare <- v", target)
+	case c.Site == "init" && c.Op == "secondTransfer":
+		body = fmt.Sprintf("let old <- %s <- v\nself.spare <- old\nself.spare2 <- w", target)
+	case c.Site == "init" && c.Op == "swapRes" && idx:
+		body = fmt.Sprintf("var t <- w\n%s <-> t\nself.spare2 <- t\nself.spare <- v", target)
+	case c.Site == "init" && c.Op == "swapRes":
+		body = fmt.Sprintf("var t: @Coin? <- v\n%s <-> t\nself.spare <- t\nself.spare2 <- w", target)
+	case c.Op == "secondTransfer" && c.Root == "localVar":
+		body = "var lc: @Coin? <- v\nlet old <- lc <- w\nreturn <- [<- old, <- lc, <- owned]"
+	case c.Op == "secondTransfer" && idx:
+		body = fmt.Sprintf("let old <- %s <- w\nreturn <- [<- old, <- owned, <- v]", target)
+	case c.Op == "secondTransfer":
+		body = fmt.Sprintf("let old <- %s <- v\nreturn <- [<- old, <- owned, <- w]", target)
+	case c.Op == "swapRes" && c.Root == "localVar":
+		body = "var lc: @Coin? <- v\nvar t: @Coin? <- w\nlc <-> t\nreturn <- [<- lc, <- t, <- owned]"
+	case c.Op == "swapRes" && idx:
+		body = fmt.Sprintf("var t <- w\n%s <-> t\nreturn <- [<- t, <- owned, <- v]", target)
+	case c.Op == "swapRes":
+		body = fmt.Sprintf("var t: @Coin? <- v\n%s <-> t\nreturn <- [<- t, <- owned, <- w]", target)
+	default:
+		return "", "", "unknown operation " + c.Op
+	}
+	call := "let out <- hold.vm(owned: <- owned, v: <- create Coin(98), w: <- create Coin(99))\n    destroy out"
+	if c.Site == "init" {
+		// the transfer only runs for the Hold created between the two snapshots (go: true), not for the fixtures
+		initBody = "if go {\n" + indent(body, "  ") + "} else {\n  self.spare <- v\n  self.spare2 <- w\n}"
+		call = "destroy owned\n    let h3 <- create Hold(a: <- create Coin(5), b: <- create Coin(6), c: <- create Coin(7), v: <- create Coin(98), w: <- create Coin(99), go: true)\n    destroy h3"
+	} else {
+		methodBody = body
+	}
+	src := fmt.Sprintf(`access(all) contract P {
+  access(all) resource Coin {
+    access(all) let id: Int
+    view init(_ id: Int) { self.id = id }
+  }
+  access(all) resource Hold {
+    access(all) var coin: @Coin?
+    access(all) var coins: @[Coin]
+    access(all) var bag: @{String: Coin}
+    access(all) var spare: @Coin?
+    access(all) var spare2: @Coin?
+    view init(a: @Coin?, b: @Coin, c: @Coin, v: @Coin?, w: @Coin, go: Bool) {
+      self.coin <- a
+      self.coins <- [<- b]
+      self.bag <- {"a": <- c}
+%s    }
+    access(all) view fun vm(owned: @Hold, v: @Coin?, w: @Coin): @[AnyResource?] {
+%s    }
+  }
+  access(all) var gCoin: @Coin?
+  access(all) var gHold: @Hold
+  access(all) fun cid(_ c: &Coin?): String { if let r = c { return r.id.toString() }; return "nil" }
+  access(all) fun snapHold(_ h: &Hold): String {
+    var out = "Hold(".concat(self.cid(h.coin)).concat("|")
+    var i = 0
+    while i < h.coins.length { out = out.concat(h.coins[i].id.toString()).concat(","); i = i + 1 }
+    return out.concat("|").concat(self.cid(h.bag["a"])).concat("#").concat(h.bag.length.toString()).concat(")")
+  }
+  access(all) fun snap(_ h: &Hold): String {
+    return self.snapHold(h).concat("|G:").concat(self.cid(&self.gCoin as &Coin?)).concat(self.snapHold(&self.gHold as &Hold))
+  }
+  access(all) fun run(acct: auth(Storage, Capabilities) &Account) {
+    let hold <- create Hold(a: <- create Coin(1), b: <- create Coin(2), c: <- create Coin(3), v: nil, w: <- create Coin(0), go: false)
+    let owned <- create Hold(a: <- create Coin(11), b: <- create Coin(12), c: <- create Coin(13), v: nil, w: <- create Coin(0), go: false)
+    log(self.snap(&hold as &Hold))
+    %s
+    log(self.snap(&hold as &Hold))
+    destroy hold
+  }
+  init() {
+    self.gCoin <- create Coin(21)
+    self.gHold <- create Hold(a: <- create Coin(22), b: <- create Coin(23), c: <- create Coin(24), v: nil, w: <- create Coin(0), go: false)
+  }
+}
+`, indent(initBody, "      "), indent(methodBody, "      "), call)
+	return src, body, ""
 }
 
 const purSetupTx = `transaction {
